@@ -16,5 +16,6 @@ CONSTANTS
   Modes = {"entity", "cdata"}
   W <- WFixed
   RootKinds = {"inst", "class", "prop", "pval", "qual", "qdecl"}
+  EmbPaths = FALSE
 INVARIANT NormIdempotent
 CHECK_DEADLOCK FALSE
